@@ -26,9 +26,30 @@ def _decl_name(stmt):
   words = stmt.split()
   return words[-1] if len(words) >= 2 else None
 
+def _range_size(r):
+  """size of `[a:b]` with small integer expressions (`8-1:0`)"""
+  a, b = r.strip()[1:-1].split(':')
+  ev = lambda x: int(eval(x, {'__builtins__': {}})) if re.fullmatch(r'[0-9+\-* ()]+', x.strip()) else None
+  a, b = ev(a), ev(b)
+  if a is None or b is None: return None
+  return abs(a - b) + 1
+
+def _port_info(rest, typedef_width):
+  """(name, packed width, [unpacked dims]) of `logic [7:0] name [0:3]` / `S_t name` ; width None if not understood"""
+  m = re.match(r'^(\S+?)\s*((?:\[[^\]]*\]\s*)*)\s*([^\s\[\]]+)\s*((?:\[[^\]]*\]\s*)*)$', rest.strip())
+  if not m: return None
+  base, packed, name, unpacked = m.groups()
+  w = typedef_width.get(base, 1 if base in DECL_WORDS else None)
+  for r in re.findall(r'\[[^\]]*\]', packed):
+    k = _range_size(r)
+    w = None if (w is None or k is None) else w * k
+  dims = [_range_size(r) for r in re.findall(r'\[[^\]]*\]', unpacked)]
+  return name, w, dims
+
 def scan(text):
   lines = text.split('\n')
   typedefs, modules, unknown = [], [], []
+  typedef_width = {}
   i, n = 0, len(lines)
   cur = None
   while i < n:
@@ -41,7 +62,15 @@ def scan(text):
         j = i
         while j < n and not re.match(r'^\}\s*(\S+)\s*;$', strip_comment(lines[j]).strip()): j += 1
         if j >= n: raise ScanError(f'unterminated typedef at line {i+1}')
-        typedefs.append(re.match(r'^\}\s*(\S+)\s*;$', strip_comment(lines[j]).strip()).group(1))
+        tname = re.match(r'^\}\s*(\S+)\s*;$', strip_comment(lines[j]).strip()).group(1)
+        typedefs.append(tname)
+        w = 0
+        for fl in lines[i + 1:j]:
+          fl = strip_comment(fl).strip().rstrip(';')
+          if not fl: continue
+          info = _port_info(fl, typedef_width)
+          w = None if (w is None or info is None or info[1] is None) else w + info[1]
+        typedef_width[tname] = w
         i = j + 1; continue
       m = re.match(r'^module\s+(.*)$', line)
       if m:
@@ -49,7 +78,7 @@ def scan(text):
         has_paren = False
         if name.endswith('(') and not re.search(r'\([^()]*$', name[:-1]):   # `module X (` on one line
           name = name[:-1].strip(); has_paren = True
-        cur = {'name': name, 'ports': [], 'ids': [], 'insts': [], 'blocks': [], 'start': i, 'decls': []}
+        cur = {'name': name, 'ports': [], 'portinfo': {}, 'ids': [], 'insts': [], 'blocks': [], 'start': i, 'decls': []}
         i += 1
         # port list
         if not has_paren:
@@ -71,6 +100,8 @@ def scan(text):
           if not pm: raise ScanError(f'port line not understood in module {name}: {pl!r}')
           pname = _decl_name(pm.group(1) + ' ' + pm.group(2))
           cur['ports'].append(pname); cur['ids'].append(pname)
+          info = _port_info(pm.group(2), typedef_width)
+          cur['portinfo'][pname] = (info[1], info[2]) if info and info[0] == pname else (None, None)
           if closing: break
         continue
       unknown.append((i + 1, raw)); i += 1; continue
@@ -111,6 +142,16 @@ def scan(text):
         cur['insts'].append((words[0], words[1])); cur['ids'].append(words[1])
         while j < n and strip_comment(lines[j]).strip() != ');': j += 1
         i = j + 1; continue
+    if len(words) == 1 and not line.endswith(';'):
+      j = i + 1
+      while j < n and not strip_comment(lines[j]).strip(): j += 1
+      if j < n and strip_comment(lines[j]).strip().startswith('#('):
+        while j < n and not re.match(r'^\)\s*(\S+)$', strip_comment(lines[j]).strip()): j += 1
+        if j >= n: raise ScanError(f'parametrised instantiation of {words[0]} not understood at line {i+1}')
+        iname = re.match(r'^\)\s*(\S+)$', strip_comment(lines[j]).strip()).group(1)
+        cur['insts'].append((words[0], iname)); cur['ids'].append(iname)
+        while j < n and strip_comment(lines[j]).strip() != ');': j += 1
+        i = j + 1; continue
     if len(words) == 3 and words[2] == '(' :
       cur['insts'].append((words[0], words[1])); cur['ids'].append(words[1])
       j = i + 1
@@ -118,9 +159,13 @@ def scan(text):
       i = j + 1; continue
     unknown.append((i + 1, raw)); i += 1
   if cur is not None: raise ScanError(f'module {cur["name"]} has no endmodule')
-  return {'typedefs': typedefs, 'modules': modules, 'unknown': unknown}
+  return {'typedefs': typedefs, 'typedef_width': typedef_width, 'modules': modules, 'unknown': unknown}
 
-ID_RE = re.compile(r'^[A-Za-z_][A-Za-z0-9_$]*$')
+ID_RE = re.compile(r'[A-Za-z_][A-Za-z0-9_$]*')
+
+def is_id(x):
+  """fullmatch: `$` in a pattern also matches just before a trailing newline"""
+  return bool(ID_RE.fullmatch(x))
 
 def direct_wf(table, reserved):
   """the direct oracle on a scanned table (independent of the Lean checker): list of (kind, detail)"""
@@ -130,7 +175,7 @@ def direct_wf(table, reserved):
     if names.count(x) > 1: bad.append(('module-defined-twice', x))
   for x in sorted(set(table['typedefs'])):
     if table['typedefs'].count(x) > 1: bad.append(('typedef-defined-twice', x))
-  def legal(x): return bool(ID_RE.match(x)) and x not in reserved
+  def legal(x): return is_id(x) and x not in reserved
   for x in table['typedefs']:
     if not legal(x): bad.append(('illegal-typedef-name', x))
   for m in table['modules']:
